@@ -10,6 +10,9 @@ open GoldilocksVerif
 @[inline] def sub_epi64 (a b : V8) : V8 := V8.map2 (· - ·) a b
 @[inline] def and_si512 (a b : V8) : V8 := V8.map2 (· &&& ·) a b
 @[inline] def xor_si512 (a b : V8) : V8 := V8.map2 (· ^^^ ·) a b
+/-- not used by the pinned source; present so that a rewrite using them stays translatable (validated when used) -/
+@[inline] def or_si512 (a b : V8) : V8 := V8.map2 (· ||| ·) a b
+@[inline] def andnot_si512 (a b : V8) : V8 := V8.map2 (fun x y => ~~~x &&& y) a b
 @[inline] def srli_epi64 (a : V8) (k : Nat) : V8 := V8.map (· >>> k) a
 @[inline] def slli_epi64 (a : V8) (k : Nat) : V8 := V8.map (· <<< k) a
 @[inline] def mul_epu32 (a b : V8) : V8 := V8.map2 Lane.mul32 a b
